@@ -9,10 +9,14 @@ mod ops_graph;
 mod ops_inventory;
 mod ops_layer;
 mod ops_parse;
+mod ops_runner;
 mod ops_serde;
 mod ops_writer;
 
 fn main() {
+    if let Ok(scenario) = std::env::var("VERIF_SCENARIO") {
+        ops_runner::child(&scenario);
+    }
     let stdin = std::io::stdin();
     let stdout = std::io::stdout();
     for line in stdin.lock().lines() {
@@ -48,6 +52,7 @@ fn dispatch(op: &str, req: &Value) -> Value {
         "env-roundtrip" => ops_env::roundtrip(req),
         "env-paths" => ops_env::paths(req),
         "argv" => ops_argv::run(req),
+        "runner-scenario" => ops_runner::run(req),
         "dep-graph" => ops_graph::run(req),
         _ => json!({"error": format!("unknown op {op}")}),
     }
